@@ -282,3 +282,86 @@ Theorem leb_u32_too_long :
     decode_u32 (b1 :: b2 :: b3 :: b4 :: b5 :: r) = None)%N.
 Proof. exact leb_u32_too_long_thm. Qed.
 Print Assumptions leb_u32_too_long.
+
+(** ** Safety of the COMPILED code (the register-machine code emitted by the model of
+    [Module::compile], [Wasm/Compile.v], byte-for-byte tied to the real compiler by C01's layer (i)).
+
+    [code_safe cx nregs nconsts code] (Wasm/CompileSafe4.v): the byte string is the encoding of a list
+    of fields that (d) parses completely by the instruction grammar [shaped] (= what the decoder of
+    machine.rs reads after each opcode byte: every opcode has all its immediates), in which (a) every
+    source operand [p] satisfies [- nconsts <= p < nregs] (register below [num_registers], or constant
+    index [-(p+1)] inside the constants table: (b)), every written register [r] satisfies
+    [0 <= r < nregs], and (c) every jump target (after back-patching) is the offset of an instruction
+    start of that grammar and is [<= length code].
+
+    Proved for EVERY opcode sequence on which the compiler model succeeds (all cases of
+    [Handler::handle_opcode]: end, else, block, loop, if, br, br_if, br_table, return, call,
+    call_indirect, unreachable, the metering tick, and every straight-line instruction), in reachable
+    and unreachable code.  Hypotheses: local indices in range (validation checks that) and the context's
+    return type is the function's.  PARTIAL in two respects: the grammar does not tie the number of
+    br_table entries to the u16 immediate (validation's "all arms have the default's label type" is
+    not available in the compiler model), and the grammar is not yet linked to a [Machine.v] step by a
+    theorem. *)
+From CB Require Import Wasm.Compile Wasm.CompileLemmas Wasm.BlockProofs Wasm.CompileSafe Wasm.CompileSafe2 Wasm.CompileSafe4.
+Theorem compile_output_safe_partial :
+  forall cx ti ft nd ops cf,
+    cx_return cx = ft_result ft ->
+    Forall (fun op => op_locals (Z.of_nat (length (ft_params ft) + nd)) op = true) ops ->
+    compile_function cx ti ft nd ops = Some cf ->
+    (0 <= cf_num_registers cf)%Z /\ (Z.of_nat (length (ft_params ft) + nd) <= cf_num_registers cf)%Z
+    /\ code_safe cx (cf_num_registers cf) (Z.of_nat (length (cf_constants cf))) (cf_code cf).
+Proof. exact compile_output_safe_partial_proof. Qed.
+Print Assumptions compile_output_safe_partial.
+
+(** non-vacuity (of this theorem and of [machine_operands_in_bounds_partial] below): a function with block / if / else / br / br_if / br_table / loop / call, arithmetic,
+    a constant, local.set (with the last_provide_loc short cut) and a result is compiled and satisfies
+    the hypotheses *)
+Theorem compile_output_safe_hypotheses_satisfiable :
+  let fty := {| ft_params := [T_i32]; ft_result := Some T_i32 |} in
+  let cx := {| cx_func_type := fun _ => Some fty; cx_type := fun _ => Some fty; cx_return := Some T_i32 |} in
+  let ops := [OBlock None; OBasic (BLocalGet 0); OBasic (BConst T_i32 1); OBasic (BBinop T_i32 Add);
+              OBasic (BLocalSet 0); OBasic (BLocalGet 0); OBasic (BBrIf 0); OBasic (BBr 0); OEnd;
+              OLoop None; OBasic (BLocalGet 0); OBasic (BBrTable [0%nat] 0); OEnd;
+              OBasic (BLocalGet 0); OIf (Some T_i32); OBasic (BLocalGet 0); OBasic (BCall 0); OElse;
+              OBasic (BConst T_i32 7); OBasic (BLocalGet 0); OBasic (BCallIndirect 0); OEnd; OEnd] in
+  cx_return cx = ft_result fty
+  /\ Forall (fun op => op_locals (Z.of_nat (length (ft_params fty) + 0)) op = true) ops
+  /\ exists cf, compile_function cx 0 fty 0 ops = Some cf /\ Nat.ltb 60 (length (cf_code cf)) = true
+       /\ (* the additional hypotheses of [machine_operands_in_bounds_partial] *)
+          (cf_num_registers cf <=? 2147483648)%Z = true
+       /\ (Z.of_nat (length (cf_constants cf)) <=? 2147483648)%Z = true
+       /\ (Z.of_nat (length (cf_code cf)) <? 4294967296)%Z = true.
+Proof.
+  cbv zeta. split; [reflexivity|]. split; [repeat (constructor; [reflexivity|]); constructor|].
+  eexists. split; [vm_compute; reflexivity|]. repeat split; vm_compute; reflexivity.
+Qed.
+Print Assumptions compile_output_safe_hypotheses_satisfiable.
+
+(** Link to the decoder of [Wasm/Machine.v] (PARTIAL: operand slots, not yet a statement about
+    [step]): in the code map the machine executes ([build_code (cf_code cf)], as in [decode_codes]),
+    reading an operand slot of the grammar with the machine's [get_i32] returns a register below
+    [num_registers] or a constant index inside the constants table; reading a written-register slot
+    returns a register in [0, num_registers); reading a jump-target slot with [get_u32] returns an
+    instruction start [<= length code].  Needs [num_registers <= 2^31], [#constants <= 2^31] and
+    [length code < 2^32] (the i32/u32 encodings are injective only there; the compiler model has no
+    such bound: it computes in unbounded [Z], where artifact.rs keeps [next_location] in an [i32] and
+    converts [constants.len()] / [out.bytes.len()] with [i32::try_from] / [u32::try_from]). *)
+From CB Require Import Wasm.Machine Wasm.CompileSafe5.
+From Coq Require Import FMapPositive.
+Theorem machine_operands_in_bounds_partial :
+  forall cx ti ft nd ops cf,
+    cx_return cx = ft_result ft ->
+    Forall (fun op => op_locals (Z.of_nat (length (ft_params ft) + nd)) op = true) ops ->
+    compile_function cx ti ft nd ops = Some cf ->
+    (cf_num_registers cf <= 2147483648)%Z -> (Z.of_nat (length (cf_constants cf)) <= 2147483648)%Z ->
+    (Z.of_nat (length (cf_code cf)) < 4294967296)%Z ->
+    let c := build_code (cf_code cf) xH (PositiveMap.empty N) in
+    exists fl, cf_code cf = enc fl /\ shaped cx fl /\
+      (forall pre p post, fl = pre ++ FSrc p :: post ->
+         get_i32 c (off pre) = p /\ (- Z.of_nat (length (cf_constants cf)) <= p < cf_num_registers cf)%Z) /\
+      (forall pre r post, fl = pre ++ FDst r :: post ->
+         get_i32 c (off pre) = r /\ (0 <= r < cf_num_registers cf)%Z) /\
+      (forall pre t post, fl = pre ++ FTgt t :: post ->
+         get_u32 c (off pre) = t /\ starts cx fl t /\ (0 <= t <= Z.of_nat (length (cf_code cf)))%Z).
+Proof. exact machine_operands_in_bounds_proof. Qed.
+Print Assumptions machine_operands_in_bounds_partial.
